@@ -61,6 +61,7 @@ static NS int rec_index(void* h) {
 }
 static NS void reclaim_cb(void* gc_data, hazard_node_t* hz) {
   (void)gc_data;
+  sim_tso_sync(); /* this helper writes the node directly */
   int i = idx_of(hz);
   if (i < 0 || i >= NPOOL) sim_violation("C14-reclaim-unknown", "callback for %p which is not a pool node", (void*)hz);
   if (nstate[i] != NS_RETIRED) sim_violation("C14-reclaim-not-retired", "node %d handed to the reclamation callback in ghost state %d (3 = already reclaimed)", i, nstate[i]);
@@ -78,6 +79,7 @@ static NS void reclaim_cb(void* gc_data, hazard_node_t* hz) {
 }
 static NS hnode_t* node_new(void) {
   hnode_t* n;
+  sim_tso_sync();
   if (nfree && (next_fresh >= NPOOL || (clk & 1))) n = free_list[--nfree];
   else if (next_fresh < NPOOL) n = NODE(order[next_fresh++]);
   else if (nfree) n = free_list[--nfree];
@@ -110,6 +112,7 @@ static NS void g_use_check(int t, int s, long id_at_validation, long id_now, uns
   if (id_now != id_at_validation) sim_violation("C14-use-after-reclaim", "record %d: protected node %d changed under the reader (%ld -> %ld)", t, i, id_at_validation, id_now);
 }
 static NS void g_release(int t, int s) {
+  sim_tso_sync(); /* the operation is complete: the cleared slot is visible (the ghost has no "being cleared" state) */
   sim_trace("rec %d slot %d released node %d", t, s, idx_of(slot_ptr[t][s]));
   slot_ptr[t][s] = NULL;
   slot_valid[t][s] = 0;
@@ -129,6 +132,7 @@ static NS void g_retire(hnode_t* old) {
       }
 }
 static NS void g_after_free(int t) {
+  sim_tso_sync();
   /* bounded garbage: a scan runs at the latest when the retired list reaches 2*N*K (N <= all records of this run) */
   size_t bound = 2u * (size_t)(nth + 1) * (size_t)K;
   if (rec[t]->retired_count >= bound)
@@ -138,6 +142,7 @@ static NS void g_after_free(int t) {
 static NS void scan_enter(void* h) {
   int t = rec_index(h);
   if (t < 0) return;
+  sim_tso_sync(); /* the ghost walks the retired list directly */
   scanning[t] = 1;
   sim_trace("scan enter rec %d (retired_count %zu, threshold %zu)", t, rec[t]->retired_count, (size_t)rec[t]->retire_threshold);
   memset(in_scan_set[t], 0, NPOOL);
@@ -234,7 +239,9 @@ void h_run(void) {
     if (warm[t] < 0) warm[t] = 0;
   }
   n_lo = wl_pct(50) ? NPOOL : wl_int(1, NPOOL - 1);
-  sim_describe("records=%d(+1) slots=%d cells=%d ops=%d late_mask=%x nodes_far_apart=%d preempt=1/%d", nth, K, ncell, total, late_mask, NPOOL - n_lo, c.preempt_inv);
+  const int tso = wl_pct(40);
+  if (tso) sim_tso_enable_plain(); /* the publication of a hazard pointer is a plain store followed by a store->load fence */
+  sim_describe("records=%d(+1) slots=%d cells=%d ops=%d late_mask=%x nodes_far_apart=%d tso=%d preempt=1/%d", nth, K, ncell, total, late_mask, NPOOL - n_lo, tso, c.preempt_inv);
   pool_lo = calloc(NPOOL, sizeof(hnode_t));
   pool_hi = sim_alloc_high(NPOOL * sizeof(hnode_t));
   for (int i = 0; i < NPOOL; i++) order[i] = i;
